@@ -132,7 +132,12 @@ impl Simd for Simd128u {
     }
 
     #[inline(always)]
-    fn gt(&self, _rhs: &Self) -> Self::Mask {
-        todo!()
+    fn gt(&self, rhs: &Self) -> Self::Mask {
+        unsafe {
+            // unsigned a > b  <=>  !(max(a, b) == b)
+            let max = _mm_max_epu8(self.0, rhs.0);
+            let le = _mm_cmpeq_epi8(max, rhs.0);
+            Mask128(_mm_cmpeq_epi8(le, _mm_setzero_si128()))
+        }
     }
 }
